@@ -215,6 +215,23 @@ class RealCodec:
   def array_dtype(self, use_f64):
     return np.float64 if use_f64 else self.dtype
 
+  def decode_batch(self, flats, use_f64=False):
+    """several flat feature lists in ONE call -> list of ParameterDict (None for paths not covered)"""
+    fd = self.array_dtype(use_f64)
+    if self.path == 'array':
+      return list(self.conv.to_parameters(np.asarray(flats, dtype=fd)))
+    if self.path == 'padded':
+      arr = np.asarray(flats, dtype=fd)
+      padded = np.asarray(self.conv.padding_schedule.pad_features(arr).padded_array)
+      return list(self.conv.to_parameters(padded))[:len(flats)]     # trial padding may add rows
+    if self.path == 'dict':
+      feats, pos = {}, 0
+      for p, k, w in zip(self.space, self.kinds, self.widths):
+        feats[p['name']] = np.asarray([f[pos:pos + w] for f in flats], dtype=np.int32 if k == 'idx' else fd)
+        pos += w
+      return list(self.conv.to_parameters(feats))
+    return None
+
   def decode(self, flat, use_f64=False):
     """flat feature list -> ParameterDict"""
     fd = self.array_dtype(use_f64)
@@ -423,6 +440,23 @@ def codec_stage(c, clip_scaled=None):
       meta['use64'] = use64
       meta['dec'] = [assign_or_err(space, safe(real.decode, a, u)) for a, u in zip(arrays, use64)]
       meta['rt'] = [None if isinstance(e, str) else assign_or_err(space, safe(real.decode, e)) for e in enc]
+      # decoding a BATCH must give, row for row, what decoding each row alone gives (any batch size,
+      # in particular batches with more rows than the feature width)
+      good = [k for k, d in enumerate(meta['dec']) if not isinstance(d, str) and not use64[k]]
+      if len(good) >= 2:
+        big = (good * 8)[:max(len(good), 2 * sum(real.widths) + 3)]
+        batch = safe(real.decode_batch, [arrays[k] for k in big])
+        if batch is not None and not isinstance(batch, str):
+          rows = [assign_or_err(space, b) for b in batch]
+          want = [meta['dec'][k] for k in big]
+          if len(rows) != len(want) or any((isinstance(r, str) != isinstance(w, str)) or (not isinstance(r, str) and not assign_close(space, r, w, eff_f32, cfg)[0]) for r, w in zip(rows, want)):
+            c.prop_fail('batch-decode-differs-from-rowwise:' + path,
+                        'decoding %d feature rows in one call returned %d parameter sets%s (converter path %s, feature width %d)' % (
+                            len(want), len(rows), '' if len(rows) != len(want) else ' that differ from decoding the rows one by one', path, sum(real.widths)),
+                        {'space': space, 'cfg': cfg, 'path': path, 'n_rows': len(want), 'n_returned': len(rows)})
+        elif isinstance(batch, str):
+          c.prop_fail('batch-decode-raises:' + path, 'decoding %d feature rows in one call raised %s although each row decodes alone' % (len(big), batch),
+                      {'space': space, 'cfg': cfg, 'path': path})
       if getattr(real, 'padding_not_nan', False):
         c.prop_fail('padding-not-nan', 'padded feature entries are not NaN', {'space': space, 'cfg': cfg})
       c.traces += len(pts_all) + len(arrays) + len(enc)
